@@ -125,6 +125,7 @@ def gen_text(rng):
 
 def run_case(key, tier, res):
     b = BOUNDS[tier]
+    res.count("tier:" + tier)
     rng = rng_for(key)
     try:
         rec, dom, prob, forms = gen_text(rng)
@@ -268,7 +269,7 @@ REQUIRED = {
 
 def thresholds(m):
     c = m["counters"]
-    thorough = m["evaluations"] > 100000
+    thorough = bool(c.get("tier:thorough"))
     out = []
     for k, v in REQUIRED.items():
         need = v * (5 if thorough and not k.startswith("files") else 1)
